@@ -172,4 +172,49 @@ RECIPES = [
      "rescale: cumulative curve does not start from zero"),
     ("C19", "break", ["C19-R4"], P, "    psdoct = ms * (1 / (FU - FL).reshape(-1, 1))", "    psdoct = ms * (1 / np.diff(np.hstack((FL, FU[-1]))).reshape(-1, 1))",
      "rescale: divided by the distance to the next lower edge, not by the band's own width"),
+    # ------------------------------------------------------------------ pass 2: R1 scale invariance of the selector, R5 fixtime
+    ("C19", "break", ["C19-R1"], P, "            if abs(s + 1.0) < 1e-5:", "            if np.isclose(f2 * p2, f1 * p1):",
+     "area: s = -1 selected by isclose on f p (absolute tolerance 1e-8 on a quantity that scales with the PSD level; round-3 seed F)"),
+    ("C19", "break", ["C19-R1"], P, "            if abs(s + 1.0) < 1e-5:", "            if abs(f2 * p2 - f1 * p1) < 1e-9:", "area: absolute tolerance on f2 p2 - f1 p1"),
+    ("C19", "break", ["C19-R1"], P, "            if abs(s + 1.0) < 1e-5:", "            if abs(s + 1.0) < 1e-5 or p1 < 1e-30:", "area: limit formula forced for tiny PSD values"),
+    ("C19", "neutral", [], P, "            if abs(s + 1.0) < 1e-5:", "            if np.isclose(s, -1.0, rtol=0, atol=1e-5):", "area: the window on the slope written with isclose (absolute tolerance on the slope itself)"),
+    ("C19", "break", ["C19-R5"], D, "        index = np.searchsorted(told, tnew)\n        # told[index]", "        index = np.searchsorted(tnew, told)\n        # told[index]",
+     "fixtime: searchsorted arguments swapped in the nearest search"),
+    ("C19", "break", ["C19-R5"], D, "pv = abs(delta_1) <= abs(delta)", "pv = abs(delta_1) < abs(delta)", "fixtime: tie goes to the later sample in the numpy variant only"),
+    ("C19", "break", ["C19-R5"], D, "            if i > 0 and v - told[i - 1] <= told[i] - v:\n                index[j] = i - 1", "            if i > 0 and v - told[i - 1] < told[i] - v:\n                index[j] = i - 1",
+     "fixtime: tie goes to the later sample in the numba variant only"),
+    ("C19", "break", ["C19-R5"], D, "index[index == lold] = lold - 1", "index[index == lold] = lold", "fixtime: insertion point len(told) not clamped to the last sample"),
+    ("C19", "break", ["C19-R5"], D, "index[pv] -= 1", "index[pv] -= 2", "fixtime: two steps back instead of one"),
+    ("C19", "break", ["C19-R5"], D, "        tnew += delt\n    return tnew, tp", "        tnew += np.linspace(0.0, delt, L)\n    return tnew, tp", "fixtime: a vector (ramp) is added to the time base"),
+    ("C19", "break", ["C19-R5"], D, "        tnew += delt\n    return tnew, tp", "        tnew += delt * np.arange(L) / L\n    return tnew, tp", "fixtime: the time base is stretched (step no longer 1 / sr)"),
+    ("C19", "break", ["C19-R5"], D, "    else:\n        index = _find_closest_times(told, tnew)",
+     "    elif len(tp) == 2 and len(tnew) == len(told):\n        index = np.arange(len(told))\n    else:\n        index = _find_closest_times(told, tnew)",
+     "fixtime: one-to-one fast path guarded by the number of turning points and the lengths (round-3 seed H)"),
+    ("C19", "break", ["C19-R5"], D, "    else:\n        index = _find_closest_times(told, tnew)",
+     "    elif len(tnew) == len(told):\n        index = np.arange(len(told))\n    else:\n        index = _find_closest_times(told, tnew)", "fixtime: one-to-one fast path guarded by the lengths only"),
+    ("C19", "break", ["C19-R5"], D, "    newdata = olddata[index]\n", "    newdata = olddata[index] if len(tnew) != len(told) else olddata[:]\n", "fixtime: data copied through when the lengths agree"),
+    ("C19", "break", ["C19-R5"], D, "    # build a best-fit index by finding closest new time (no\n",
+     "    if len(tp) == 2:\n        return _return(told, olddata, alldrops, sr_stats, tp, getall, return_ndarray, despike_info)\n    # build a best-fit index by finding closest new time (no\n",
+     "fixtime: input returned as it is when there are no turning points"),
+    ("C19", "break", ["C19-R5"], D, "        index = np.searchsorted(told, tnew) - 1\n        index[index < 0] = 0", "        index = np.searchsorted(told, tnew)\n        index[index < 0] = 0",
+     "fixtime: previous-sample search returns the next sample"),
+    ("C19", "break", ["C19-R5"], D, "index = _find_closest_previous_times(told - dt * previous_value_tol, tnew)", "index = _find_closest_previous_times(told + dt * previous_value_tol, tnew)",
+     "fixtime: tolerance of the previous-sample search applied with the wrong sign"),
+    ("C19", "break", ["C19-R5"], D, "        tnew += t1\n", "        tnew -= t1\n", "fixtime: base shift with the wrong sign"),
+    ("C19", "break", ["C19-R5"], D, "L = int(round((told[-1] - told[0]) * sr)) + 1", "L = int(round((told[-1] - told[0]) * sr))", "fixtime: the new time base stops one sample short of the input"),
+    ("C19", "break", ["C19-R5"], D, "        pv = abs(delta_1) <= abs(delta)\n        index[pv] -= 1\n        return index", "        return np.where(abs(delta) > abs(delta_1), index - 1, index)",
+     "fixtime: np.where form of the one-step-earlier test with the tie dropped"),
+    ("C19", "neutral", [], D, "    else:\n        index = _find_closest_times(told, tnew)", "    else:\n        nearest_of = _find_closest_times\n        index = nearest_of(told, tnew)",
+     "fixtime: the search function called through a local alias"),
+    ("C19", "neutral", [], D, "    else:\n        index = _find_closest_times(told, tnew)",
+     "    else:\n        index = np.searchsorted(told, tnew)\n        index[index == len(told)] = len(told) - 1\n        earlier = abs(told[index - 1] - tnew) <= abs(told[index] - tnew)\n        index[earlier] -= 1",
+     "fixtime: nearest search inlined into fixtime"),
+    ("C19", "neutral", [], D, "    newdata = olddata[index]\n", "    picked = index\n    newdata = np.take(olddata, picked, axis=0)\n", "fixtime: index in a temporary, data taken with np.take"),
+    ("C19", "neutral", [], D, "        pv = abs(delta_1) <= abs(delta)\n        index[pv] -= 1\n        return index", "        return np.where(abs(delta) >= abs(delta_1), index - 1, index)",
+     "fixtime: one-step-earlier test as np.where with the comparison turned round"),
+    ("C19", "neutral", [], D, "        index[index == lold] = lold - 1\n", "        index = np.minimum(index, lold - 1)\n", "fixtime: clamp written with np.minimum"),
+    ("C19", "neutral", [], D, "tnew = np.arange(L) / sr + told[0]", "tnew = told[0] + dt * np.arange(L)", "fixtime: time base written as told[0] + dt * arange(L)"),
+    ("C19", "neutral", [], D, "    else:\n        index = _find_closest_times(told, tnew)",
+     "    elif len(tnew) == len(told) and np.array_equal(told, tnew):\n        index = np.arange(len(told))\n    else:\n        index = _find_closest_times(told, tnew)",
+     "fixtime: one-to-one fast path established by an element-wise comparison of old and new times"),
 ]
